@@ -12,6 +12,8 @@
  */
 
 #include "cppEnumType.h"
+
+#include <set>
 #include "cppTypedefType.h"
 #include "cppExpression.h"
 #include "cppSimpleType.h"
@@ -220,6 +222,14 @@ substitute_decl(CPPDeclaration::SubstDecl &subst,
     return (*si).second;
   }
 
+  // The initializer of an element may refer to another element of this same
+  // enum (enum class Mode { a, b = a }), whose type is this enum again.  Do
+  // not recurse into ourselves.
+  static std::set<CPPEnumType *> in_progress;
+  if (!in_progress.insert(this).second) {
+    return this;
+  }
+
   CPPEnumType *rep = new CPPEnumType(*this);
 
   if (_ident != nullptr) {
@@ -267,6 +277,7 @@ substitute_decl(CPPDeclaration::SubstDecl &subst,
   rep = CPPType::new_type(rep)->as_enum_type();
   subst.insert(SubstDecl::value_type(this, rep));
 
+  in_progress.erase(this);
   return rep;
 }
 
